@@ -54,7 +54,9 @@ def pubsub_script(draw):
     ops.append(["publish", draw(st.integers(0, nao - 1)), sig, draw(st.sampled_from(["outside", "handler"]))])
   ops.append(["settle"])
   sched_ = draw(st.lists(st.tuples(st.integers(0, 6), st.integers(1, 9)), max_size=150)) if fine else draw(schedule_st)
-  return {"deco": deco, "ops": ops, "schedule": [list(x) for x in sched_]}
+  # an object may also be built with its instrumentation switched off by the constructor
+  return {"deco": deco, "ops": ops, "schedule": [list(x) for x in sched_],
+          "instr_off": [draw(st.integers(0, 3)) == 0 for _ in range(nao)]}
 
 
 class C07(Prop):
@@ -62,7 +64,7 @@ class C07(Prop):
   quick_examples = 600
   thorough_examples = 4000
   rule = ("Generated scripts under the deterministic scheduler: 1-3 ActiveObjects, each with or "
-          "without the spy decorator on its states; up to 10 operations from subscribe(signal, "
+          "without the spy decorator on its states, a quarter of them built with instrumented=False; up to 10 operations from subscribe(signal, "
           "fifo/lifo) and publish(signal) - each called either from outside (body thread) or from "
           "inside one of the object's own handlers during a step - start_at and settle, in any "
           "order (so subscriptions and publications happen before and after start, with none, one "
@@ -123,7 +125,11 @@ class C07(Prop):
       A = aocheck.make_ao_class(rec)
       charts, fns = [], []
       for a in range(nao):
-        c = A(name="ao%d" % a)
+        if (case.get("instr_off") or [False] * nao)[a]:
+          c = A(name="ao%d" % a, instrumented=False)
+          flags["classes"].add("constructed_uninstrumented")
+        else:
+          c = A(name="ao%d" % a)
         charts.append(c)
 
         def on_dispatch(chart, e):
